@@ -957,6 +957,9 @@ func (h *harness) wireProbes() {
 			if all[p+1]&0x80 != 0 {
 				hl += 4
 			}
+			if n < 0 || n > len(all) { // a flipped length byte: nothing more to classify
+				return
+			}
 			for ci < len(cuts) && cuts[ci] <= p {
 				ci++
 			}
